@@ -85,6 +85,12 @@ Proof. apply sched_okb_ok. vm_compute. reflexivity. Qed.
 Lemma two_windows_not_sched : sched_okb (cfg2 true) init_state trace_two_windows = false.
 Proof. vm_compute. reflexivity. Qed.
 
+(* the function the acceptor evaluates on real runs rejects exactly that trace (and accepts the cycle) *)
+Lemma two_windows_rejected_by_acceptor_check : sched_holds_run (cfg2 true) init_state trace_two_windows = false.
+Proof. vm_compute. reflexivity. Qed.
+Lemma cycle_passes_acceptor_check : sched_holds_run (cfg2 true) init_state trace_cycle = true.
+Proof. vm_compute. reflexivity. Qed.
+
 (* ---------- the code before the fixes, in the model ---------- *)
 
 (* before b025328: processReady published the committed entries before persistRaftState although they were
